@@ -181,7 +181,7 @@ func run(c *hc.Ctx) error {
 	}
 	w := newWorld(s)
 	for _, e := range w.extra {
-		c.Differ("type-map", e, "", "constructor of a TypesConstructorMap missing in the translated schema")
+		c.Differ("schema-vs-go-types", e, "", "the translated schema disagrees with the Go types")
 	}
 	var q []pending
 	q = append(q, pending{"wf", "Schema.wf on the regenerated schema", fmt.Sprintf("ok %d %d", len(s.Ctors), len(s.Ifaces))})
@@ -217,7 +217,29 @@ func run(c *hc.Ctx) error {
 	junkPer := c.N(4, 40)
 	bigLeft := c.N(6, 200)
 	for _, ct := range w.inMap {
-		for rep := 0; rep < reps; rep++ {
+		if w.ctorD[ct.Idx] >= inf {
+			// the translator gave up inside this constructor: no values can be built for it; its
+			// decoder still gets noise (panic / preallocation monitor)
+			c.Count("untranslated(noise only)")
+			for j := 0; j < junkPer*4; j++ {
+				data := append([]byte{byte(ct.ID), byte(ct.ID >> 8), byte(ct.ID >> 16), byte(ct.ID >> 24)}, r.Bytes(r.Range(0, 48))...)
+				obj := w.newObj[ct.Idx]()
+				_, _, p := decodeSafe(obj, data)
+				c.Eval("noise "+hc.Hex(data), true)
+				if p != nil {
+					c.Fail("decode-panic", ct.Pkg+"."+ct.GoName+" "+hc.Hex(data), fmt.Sprint(p))
+				}
+				if waste := maxSliceWaste(reflect.ValueOf(obj), 0); waste > 1024 {
+					c.Fail("prealloc", ct.Pkg+"."+ct.GoName+" "+hc.Hex(data), fmt.Sprintf("a decoded slice has capacity %d", waste))
+				}
+			}
+			continue
+		}
+		nrep := reps
+		if ct.Bad != "" {
+			nrep = 400 // the translator found an inconsistency here: search harder for a failing input
+		}
+		for rep := 0; rep < nrep; rep++ {
 			g := &gen{w: w, r: r, budget: hc.Pick(r, 5, 40, 150, 400), maxD: hc.Pick(r, 1, 2, 3, 3, 4)}
 			if bigLeft > 0 && r.Chance(2) {
 				g.big = true
